@@ -28,10 +28,10 @@ import (
 
 	sdkmath "cosmossdk.io/math"
 	codectypes "github.com/cosmos/cosmos-sdk/codec/types"
-	gogoproto "github.com/cosmos/gogoproto/proto"
 	sdk "github.com/cosmos/cosmos-sdk/types"
 	govv1 "github.com/cosmos/cosmos-sdk/x/gov/types/v1"
 	stakingtypes "github.com/cosmos/cosmos-sdk/x/staking/types"
+	gogoproto "github.com/cosmos/gogoproto/proto"
 
 	consensustypes "github.com/palomachain/paloma/v2/x/consensus/types"
 	evmtypes "github.com/palomachain/paloma/v2/x/evm/types"
@@ -46,11 +46,11 @@ import (
 const queuePrefix = "consensus-queue-signing-type-"
 
 type idParams struct {
-	Mode   string `json:"mode"`
-	Chains int    `json:"chains"`
-	Steps  int    `json:"steps"`
-	Long   bool   `json:"long"` // run past height 10000 (scheduled reference-block messages)
-	LongSkips int `json:"long_skips"` // budget of 300-block skips (scheduled balances, pruning)
+	Mode      string `json:"mode"`
+	Chains    int    `json:"chains"`
+	Steps     int    `json:"steps"`
+	Long      bool   `json:"long"`       // run past height 10000 (scheduled reference-block messages)
+	LongSkips int    `json:"long_skips"` // budget of 300-block skips (scheduled balances, pruning)
 }
 
 func idCases(tier string, seed int64, n int) []fw.Case {
@@ -72,26 +72,27 @@ type entry struct {
 }
 
 type idWorld struct {
-	c     *chain.Chain
-	rec   *fw.Recorder
-	r     *rand.Rand
-	vals  []*chain.Account
-	users []*chain.Account
-	refs  []string // all chain reference ids of the world
+	c        *chain.Chain
+	rec      *fw.Recorder
+	r        *rand.Rand
+	vals     []*chain.Account
+	users    []*chain.Account
+	refs     []string // all chain reference ids of the world
 	chainIDs map[string]uint64
-	active map[string]bool // chain currently exists
-	version map[string]int // activations so far (unique id suffix)
-	jobs   map[string]string // ref -> job id
+	active   map[string]bool   // chain currently exists
+	version  map[string]int    // activations so far (unique id suffix)
+	jobs     map[string]string // ref -> job id
 
 	// reference model
-	hw        uint64            // highest id seen anywhere so far
-	owner     map[uint64]string // id -> queue it was first seen in
-	live      map[entry]string  // entries in the store at the last scan -> hash of Msg content
-	dead      map[uint64]int64  // ids that left the store -> height
-	history   []string // compact op history for witnesses
-	stepNo    int
-	name      string
-	expectJob []jobExpect
+	hw            uint64            // highest id seen anywhere so far
+	owner         map[uint64]string // id -> queue it was first seen in
+	live          map[entry]string  // entries in the store at the last scan -> hash of Msg content
+	dead          map[uint64]int64  // ids that left the store -> height
+	history       []string          // compact op history for witnesses
+	stepNo        int
+	name          string
+	expectJob     []jobExpect
+	apiCalls      int
 	expectReplace *entry // set by queueAPI right before a legitimate replace-in-place call
 }
 
